@@ -1,4 +1,10 @@
 import Driver.Reader
+import Driver.Num
+import Driver.Transform
+import Driver.Store
+import Driver.Gc
+import Driver.Vm
+import Driver.Syntax
 /-!
 Line-protocol driver: one request per line (`<component> <arg>…`, space separated), one response
 per line. Unknown or undecodable requests answer `bad-op` — never a default.
@@ -6,7 +12,9 @@ per line. Unknown or undecodable requests answer `bad-op` — never a default.
 open Marwood
 
 def handlers : List (String → List String → Option String) :=
-  [Marwood.Driver.Reader.handle]
+  [Marwood.Driver.Reader.handle, Marwood.Driver.Num.handle, Marwood.Driver.Transform.handle,
+   Marwood.Driver.Store.handle, Marwood.Driver.Gc.handle, Marwood.Driver.Vm.handle,
+   Marwood.Driver.Syntax.handle]
 
 def respond (line : String) : String :=
   match (line.trimAscii.toString.splitOn " ").filter (· ≠ "") with
